@@ -13,3 +13,17 @@ pub fn parse_formatted_number(
 ) -> Result<(f64, Option<String>), String> {
     crate::formatter::format::parse_formatted_number(original, currencies, locale)
 }
+
+/// Build a `parser::NamedVariable` (its fields are crate-private)
+pub fn named_variable(name: &str, is_optional: bool) -> crate::expressions::parser::NamedVariable {
+    crate::expressions::parser::NamedVariable {
+        name: name.to_string(),
+        id: None,
+        is_optional,
+    }
+}
+
+/// Read a `parser::NamedVariable` (its fields are crate-private)
+pub fn named_variable_parts(v: &crate::expressions::parser::NamedVariable) -> (String, bool) {
+    (v.name.clone(), v.is_optional)
+}
